@@ -626,6 +626,7 @@ func (lsm *LSM) startFlushWorkers(n int) {
 					if updateErr := lsm.flushMgr.Update(task.ID, flush.StageInstall, nil, nil); updateErr != nil {
 						_ = utils.Err(updateErr)
 					}
+					verifhook.Yield(lsm, "lsm.flush.installed")
 					lsm.lock.Lock()
 					for idx, imm := range lsm.immutables {
 						if imm == mt {
